@@ -114,6 +114,13 @@ def source_dictionary(cap=40):
     path = os.path.join(d, "dict.json")
     json.dump([[ord(ch) for ch in w] for w in ws], open(path, "w"))
     os.environ["VERIF_DICT"] = path
+    # the same words by the production they fit, in canonical case, for the likely-subtags / direction models (strings there)
+    lk = {"langs": sorted({w.lower() for w in ws if re.fullmatch(r"[A-Za-z]{2,3}|[A-Za-z]{5,8}", w) and w.lower() != "und"}),
+          "scripts": sorted({w[0].upper() + w[1:].lower() for w in ws if re.fullmatch(r"[A-Za-z]{4}", w)}),
+          "regions": sorted({w.upper() for w in ws if re.fullmatch(r"[A-Za-z]{2}|[0-9]{3}", w)})}
+    path2 = os.path.join(d, "dict_likely.json")
+    json.dump(lk, open(path2, "w"))
+    os.environ["VERIF_DICT_LIKELY"] = path2
     return ws, note, len(files)
 
 
